@@ -641,8 +641,13 @@ def _s(v):
 
 
 def run_case_c03(case):
+    cwd0 = os.getcwd()
     with Scratch('am') as root:
         r = Run03(case, root).run()
+        if os.getcwd() != cwd0:
+            r.bad('working-directory-changed', 'the operations left the process in %s (it started in %s): every archive '
+                  'addressed by a relative name now resolves elsewhere' % (os.getcwd(), cwd0))
+            os.chdir(cwd0)
         for x in (r.a, r.other):
             conn = getattr(getattr(x, 'archive', x), '_conn', None)
             if conn is not None:
